@@ -12,7 +12,7 @@ def CFG_skip(skip=()):
 CFG = CFG_skip()
 
 
-SPECIAL = {"A_sealed": ("C03",), "A_clisealed": ("C03",), "T_srvdrops": ("C12", "C10"), "T_srvdrop": ("C12", "C10")}
+SPECIAL = {"L_once": ("C10", "C04"), "A_sealed": ("C03",), "A_clisealed": ("C03",), "T_srvdrops": ("C12", "C10"), "T_srvdrop": ("C12", "C10")}
 
 
 def props_of(clause):
@@ -53,7 +53,8 @@ def run_random(args):
                     if r < p["p_send"]:
                         tag = w.aid(c["addr"]).to_bytes(4, "big")
                         kind = b"KICK" if rnd.random() < p["p_kick"] else rnd.choice([b"DATA", b"GUAR"])
-                        cl.send(tag + kind + bytes(rnd.getrandbits(8) for _ in range(rnd.choice([4, 50, 1500, 3000]))), retry=rnd.choice([0, -1]))
+                        w.uniq += 1           # no two application messages of a run are the same bytes
+                        cl.send(tag + kind + w.uniq.to_bytes(4, "big") + bytes(rnd.getrandbits(8) for _ in range(rnd.choice([4, 50, 1500, 3000]))), retry=rnd.choice([0, -1]))
                     elif r < p["p_send"] + p["p_disc"]:
                         w.client_disconnect(cid)
                     elif r < p["p_send"] + p["p_disc"] + p["p_silent"]:
